@@ -69,7 +69,7 @@ func genSanOpts(g *Gen) *SanOpts {
 			v.Ranges = append(v.Ranges, [2]rune{lo, hi})
 		}
 		for i := g.Intn(4); i > 0; i-- {
-			v.Chars = append(v.Chars, rune(pick(g, '_', '-', '.', 'é', '日', ':', ' ', 0xfffd)))
+			v.Chars = append(v.Chars, rune(pick(g, '_', '-', '.', 'é', '日', ':', ' ', 0xfffd, 'Ł', '中', 0x12e, 0x1f65f, 0x10041)))
 		}
 		return v
 	}
